@@ -640,9 +640,11 @@ def admission_jobs(r, n: int, prefix: str) -> List[tuple]:
         seq: List[Dict[str, Any]] = []
         seated: Dict[int, str] = {}
         nbad = r.randrange(0, 5)
+        if q % 10 == 9:
+            nbad = 26        # a long run of refused requests: every one costs the table manager a second
         for g in good:
             # bad requests that are certain to be refused at this point
-            while nbad and r.random() < 0.6:
+            while nbad and (r.random() < 0.6 or (nbad > 5 and seated)):
                 nbad -= 1
                 kind = r.choice(['version', 'taken', 'team'])
                 s = r.randrange(4)
@@ -660,6 +662,10 @@ def admission_jobs(r, n: int, prefix: str) -> List[tuple]:
                     ver = 18
                 else:
                     ver = r.choice([17, 19, 1, 180])
+                    if r.random() < 0.6:
+                        # (a wrong version AND a team name of its own: nothing of this
+                        # request may be remembered)
+                        team = r.choice(['Visitors', 'other', rand_id(r).strip() or 'v'])
                 line = f'Connecting "{team}" as {["North", "East", "South", "West"][s]} ' \
                        f'using protocol version {ver}'
                 if r.random() < 0.3:
